@@ -73,8 +73,65 @@ def scenario_cases(pairs):
     return out
 
 
+def assertion_cases():
+    """token requests authenticated with an RFC 7523 client assertion (client lookup and jti store are integrator callbacks too): a fault at the k-th
+    callback surfaces, nothing is issued or stored; the fault-free repetition (new jti) succeeds"""
+    out = []
+    for grant in ("client_credentials", "refresh_token"):
+        for k in range(0, 8):
+            for ft in (None, "ValueError", "KeyError", "OSError", "LookupError"):
+                out.append({"world": "assertion", "grant": grant, "k": k, "fault_type": ft, "cfg": {}, "ops": []})
+    return out
+
+
+def impl_assertion(c):
+    import json
+    import memserver as ms
+    from memserver import Req, Client, Token, CLOCK
+    from authlib.jose import jwt
+    ms.install_clock()
+    store, srv, rp = ms.build(oidc=False)
+    store.clients["jwtc"] = Client("jwtc", "jwt-shared-secret-jwt-shared-secret", ["https://c/cb"], "a b", ms.ALL_GRANT_TYPES, ms.ALL_RESPONSE_TYPES, "client_assertion_jwt")
+    ms.enable_jwt_client_auth(store, srv)
+    store.tokens.append(Token(_store=store, access_token="AT0", refresh_token="RT0", client_id="jwtc", user_id=1, scope="a", expires_in=3600, issued_at=CLOCK(), token_type="Bearer"))
+    saved = {g: g.TOKEN_ENDPOINT_AUTH_METHODS for g in (ms.ClientCredentialsGrant, ms.RefreshGrant)}
+    for g in saved:
+        g.TOKEN_ENDPOINT_AUTH_METHODS = ["client_secret_basic", "client_assertion_jwt"]
+    def request(jti):
+        a = jwt.encode({"alg": "HS256"}, {"iss": "jwtc", "sub": "jwtc", "aud": ms.TOKEN_URL, "exp": CLOCK() + 300, "iat": CLOCK(), "jti": jti}, store.clients["jwtc"].client_secret.encode()).decode()
+        form = {"grant_type": c["grant"], "client_assertion_type": "urn:ietf:params:oauth:client-assertion-type:jwt-bearer", "client_assertion": a}
+        if c["grant"] == "refresh_token":
+            form["refresh_token"] = "RT0"
+        return Req("POST", ms.TOKEN_URL, form, {})
+    def snap():
+        return json.dumps(store.snapshot(), sort_keys=True)
+    try:
+        out = {}
+        before = snap()
+        store.trace, store.fail_at, store.fault_type = [], c["k"], c["fault_type"]
+        try:
+            r = srv.create_token_response(request("j1"))
+            out["first"] = {"status": r.status, "error": (r.body or {}).get("error"), "issued": "access_token" in (r.body or {})}
+        except Exception as e:
+            out["first"] = {"surfaced": type(e).__name__}
+        out["callbacks"] = list(store.trace)
+        out["fault_hit"] = len(store.trace) > c["k"]
+        out["changed_by_fault"] = snap() != before
+        store.fail_at = None
+        store.trace = []
+        try:
+            r = srv.create_token_response(request("j2"))
+            out["retry"] = {"status": r.status, "error": (r.body or {}).get("error"), "issued": "access_token" in (r.body or {})}
+        except Exception as e:
+            out["retry"] = {"surfaced": type(e).__name__}
+        return out
+    finally:
+        for g, m in saved.items():
+            g.TOKEN_ENDPOINT_AUTH_METHODS = m
+
+
 def cases(rng, tier):
-    out = scenario_cases(pairs=True)
+    out = scenario_cases(pairs=True) + assertion_cases()
     n, ln = (60, 12) if tier == "quick" else (1500, 28)
     for i in range(n):
         h = H.gen_history(rng, ln, "code" if i % 2 else "token", pkce_required=(i % 5 == 0), fault_p=0.35)
@@ -85,6 +142,8 @@ def cases(rng, tier):
 
 
 def impl(c):
+    if c["world"] == "assertion":
+        return impl_assertion(c)
     if c["world"] in ("oauth2", "oidc"):
         cfg = c["cfg"]
         w = H.World(cfg.get("pkce_required", False), cfg.get("supported"), cfg.get("strict_hint", False), oidc=cfg.get("oidc", False))
@@ -103,12 +162,16 @@ def impl(c):
 
 
 def model_line(c):
+    if c["world"] == "assertion":
+        return None
     if c["world"] == "oidc" or any(op["op"] == "implicit" for op in c["ops"]):
         return None
     return {"world": c["world"], "cfg": c["cfg"], "ops": [{k: v for k, v in op.items() if k != "fault"} for op in c["ops"]]}
 
 
 def project(c, out):
+    if c["world"] == "assertion":
+        return out
     outs = []
     for o in out["outs"]:
         o = {k: v for k, v in o.items() if k not in ("before", "nofault")}
@@ -146,6 +209,21 @@ def oracle(c, out):
     v = []
     def bad(what, **sig):
         v.append((what, dict(sig, world=c["world"])))
+    if c["world"] == "assertion":
+        where = f"{c['grant']} request authenticated with a client assertion, {c['fault_type'] or 'storage'} fault at integrator callback #{c['k']} ({(out['callbacks'] + ['-'])[min(c['k'], len(out['callbacks']) - 1)] if out['callbacks'] else '-'})"
+        if out["fault_hit"]:
+            if "surfaced" not in out["first"]:
+                bad(f"{where}: the failure did not surface, the caller was answered {out['first']}", kind="fault-swallowed", op=c["grant"], issued=bool(out["first"].get("issued")))
+            first_stage = out["callbacks"][c["k"]] in ("query_client", "validate_jti")
+            if out["changed_by_fault"] and first_stage:
+                bad(f"{where}: stored state changed although client authentication never completed", kind="write-before-fault", op=c["grant"])
+        elif "surfaced" in out["first"] or not out["first"].get("issued"):
+            bad(f"{where} (never reached): fault-free request answered {out['first']}", kind="crash", op=c["grant"], exc=str(out["first"].get("surfaced")))
+        # (what a fault in the grant's own callbacks leaves behind is the subject of the traced flows above; here: the authentication stage)
+        if out["retry"].get("issued") is not True and ((not out["fault_hit"] and c["grant"] != "refresh_token") or
+                                                       (out["fault_hit"] and out["callbacks"][c["k"]] in ("query_client", "validate_jti"))):
+            bad(f"{where}: the fault-free repetition with a new jti answered {out['retry']}", kind="retry-differs", op=c["grant"])
+        return v
     ops, outs = c["ops"], out["outs"]
     for i, (op, o) in enumerate(zip(ops, outs)):
         if "raised" in o:
@@ -195,6 +273,8 @@ def oracle(c, out):
 
 
 def classify(c, out):
+    if c["world"] == "assertion":
+        return f"assertion/{c['grant']}/" + ("fault" if out["fault_hit"] else "nofault")
     if c.get("scenario"):
         return f"scenario/{c['scenario']}/faults={len(c['k'])}"
     nf = sum(1 for o in out["outs"] if o.get("fault"))
@@ -202,6 +282,8 @@ def classify(c, out):
 
 
 def nontrivial(c, out):
+    if c["world"] == "assertion":
+        return [c["grant"], c["k"], c["fault_type"]]
     return [(op["op"], op.get("fault"), tuple(op.get("done", ()))) for op in c["ops"]]
 
 
